@@ -158,6 +158,7 @@ func (r *armoredReader) Read(p []byte) (int, error) {
 	r.unread = r.buf[:]
 	n, err := base64.StdEncoding.Strict().Decode(r.unread, line)
 	if err != nil {
+		r.unread = nil
 		return 0, r.setErr(err)
 	}
 	r.unread = r.unread[:n]
@@ -165,9 +166,11 @@ func (r *armoredReader) Read(p []byte) (int, error) {
 	if n < format.BytesPerLine {
 		line, err := getLine()
 		if err != nil {
+			r.unread = nil
 			return 0, r.setErr(err)
 		}
 		if string(line) != Footer {
+			r.unread = nil
 			return 0, r.setErr(fmt.Errorf("invalid closing line: %q", line))
 		}
 		r.setErr(drainTrailing())
